@@ -59,13 +59,13 @@ def plan(tier, seed):
     jobs = [{"name": "tables", "spec": {"kind": "tables"}}, {"name": "vectors", "spec": {"kind": "vectors"}}]
     q = tier == "quick"
     for i in range(3 if q else 8):
-        jobs.append({"name": "block%d" % i, "spec": {"kind": "block", "n": 1500 if q else 60000}})
+        jobs.append({"name": "block%d" % i, "spec": {"kind": "block", "n": 1500 if q else 200000}})
     for i in range(4 if q else 16):
-        jobs.append({"name": "modes%d" % i, "spec": {"kind": "modes", "n": 220 if q else 6000, "i": i}})
+        jobs.append({"name": "modes%d" % i, "spec": {"kind": "modes", "n": 220 if q else 25000, "i": i}})
     for i in range(3 if q else 12):
-        jobs.append({"name": "feeder%d" % i, "spec": {"kind": "feeder", "n": 200 if q else 5000}})
+        jobs.append({"name": "feeder%d" % i, "spec": {"kind": "feeder", "n": 200 if q else 20000}})
     for i in range(4 if q else 12):
-        jobs.append({"name": "adapter%d" % i, "spec": {"kind": "adapter", "n": 120 if q else 2500}})
+        jobs.append({"name": "adapter%d" % i, "spec": {"kind": "adapter", "n": 120 if q else 10000}})
     jobs.append({"name": "splits", "spec": {"kind": "splits", "maxlen": 8 if q else 11}})
     return jobs
 
